@@ -395,7 +395,7 @@ def monitor_md(ctx, layout, root, steps, before, after, base, spell_b64) -> None
 def sec_maildir(ctx) -> None:
     from ..pymap_env import run
     rng = ctx.rng
-    n_prog = ctx.scale(70, 1800)
+    n_prog = ctx.scale(70, 500)
     plans = []
     for layout in ('++', 'fs'):
         for j in range(n_prog):
@@ -456,7 +456,7 @@ def sec_pure(ctx) -> None:
     from pymap.exceptions import NotSupportedError
     from mailbox import Maildir
     rng = ctx.rng
-    n = ctx.scale(800, 15000)
+    n = ctx.scale(800, 8000)
     jc, nc, gc, keep = [], [], [], []
     comps = ['', '.', '..', 'a', 'b', 'u2', '/', '//', 'a/', '/a', 'a/b', '...', 'é', ' ', '.a', 'a.', '\x00x']
     for _ in range(n):
